@@ -261,7 +261,7 @@ if __name__ == "__main__":
     if len(sys.argv) > 1 and sys.argv[1] == "--hash":
         print(tree_hash())
     elif len(sys.argv) > 1 and sys.argv[1] == "--setup":
-        for t in ("mirfacts",):
+        for t in ("mirfacts", "synfacts"):
             print(build_tool(t))
         d, h = ensure_facts()
         print(d)
